@@ -180,6 +180,11 @@ CONTEXTS = {
     'if_cond': '#if {E} { 1 }\n',
     'math_hash': '$ a + #{E} + b $\n',
     'math_arg': '$ f(#{E}, x) $\n',
+    'math_attach': '$ x^#{E} + y_#{E} $\n',
+    'math_frac': '$ 1/#{E} $\n',
+    'math_root': '$ √#{E} $\n',
+    'math_delim': '$ (#{E}) $\n',
+    'math_2d_arg': '$ mat(#{E}; 1) $\n',
     'list_item': '- #{E}\n- second\n',
     'enum_item': '+ #{E} tail\n',
     'term_item': '/ t: #{E}\n',
@@ -198,7 +203,7 @@ CONTEXTS = {
 STMT_ONLY = {'let', 'let_fn', 'let_destruct', 'let_dict_destruct', 'let_noinit', 'set', 'set_if', 'show', 'show_set', 'show_all', 'show_str',
              'import', 'import_star', 'import_paren', 'import_as', 'import_bare', 'return', 'return_v', 'break', 'assign', 'add_assign',
              'destruct_assign', 'let_bc', 'let_lc', 'set_bc', 'show_bc', 'import_bc', 'import_lc', 'return_bc', 'destruct_lc'}
-STMT_CONTEXTS = ('hash', 'hash_eol', 'block', 'block_inline', 'content_in_code', 'list_item', 'math_hash')
+STMT_CONTEXTS = ('hash', 'hash_eol', 'block', 'block_inline', 'content_in_code', 'list_item', 'math_hash', 'math_attach')
 
 MATH = {
     'attach': '$ a_b^c $', 'attach_paren': '$ a_(b c)^(d) $', 'attach_hash': '$ a_#b $', 'attach_hash_chain': '$ a_#b.c $', 'attach_hash_call': '$ x^#f(1) $',
